@@ -54,3 +54,19 @@ def run(chk, tier, seed, replay=None):
     for c in cases[:3]:
         chk.sample({'world': c['world'], 'options': c['o'], 'mode': c['mode']})
     corecheck.run_cases(chk, FAM, cases)
+    # the same property on the other CPythons of the sandbox: unittest's own
+    # behaviour around skipped tests differs between versions; the reference
+    # result events are measured on the interpreter that runs the world
+    import runlib
+    used = {}
+    per = 25 if tier == 'quick' else 300
+    for ver, py in sorted(runlib.OTHER_PYTHONS.items()):
+        sub = [dict(c, id='%s-py%s' % (c['id'], ver)) for c in
+               corecheck.gen_cases(rng, graphs, per, prof_a, 'v' + ver.replace('.', ''))
+               if c['mode'] == 'inproc']
+        for c in sub:
+            c['world']['id'] = c['id']
+            # exception groups do not exist before 3.11
+        corecheck.run_cases(chk, FAM, sub, label='CPython ' + ver, python=py)
+        used[ver] = len(sub)
+    chk.extra['other_interpreters'] = used or 'none available'
